@@ -93,7 +93,11 @@ CTX_SHAPES = ["plain-leaf", "syscall-only", "calls", "no-function",
               "no-function-behind-a-calling-function",
               "leaf-gets-a-call-then-a-context-without-it",
               "leaf-gets-a-call-from-a-context-that-saw-only-it",
-              "same-patch-object-in-a-calling-function-first"]
+              "same-patch-object-in-a-calling-function-first",
+              "first-context-without-the-leaf:no-functions",
+              "first-context-without-the-leaf:other-functions",
+              "block-shared-by-a-leaf-and-a-calling-function:leaf-first",
+              "block-shared-by-a-leaf-and-a-calling-function:leaf-last"]
 
 
 def gen_case(rng, tier, index):
@@ -209,7 +213,16 @@ def run_ctx(c):
             blk(5, ["h"], [{"k": "nop"}, {"k": "call", "t": "g"}]),
             blk(6, ["h1"], [{"k": "ret"}]),
             blk(0, ["f"], [{"k": "nop"}, {"k": "ret"}])],
-    }[shape]
+    }.get(shape)
+    if shape.startswith("first-context-without-the-leaf"):
+        blocks = [blk(0, ["f"], [{"k": "nop"}, {"k": "ret"}])]
+    if shape.startswith("block-shared-by-a-leaf-and-a-calling-function"):
+        # the tail `nop; ret` belongs to f (nothing else: a leaf) and to h,
+        # which calls g and falls into it: whoever gets there through f has
+        # a live red zone
+        blocks = [blk(5, ["h"], [{"k": "nop"}, {"k": "call", "t": "g"}]),
+                  blk(6, ["h1"], [{"k": "nop"}]),
+                  blk(0, ["f"], [{"k": "nop"}, {"k": "ret"}])]
     blocks = blocks + [blk(9, ["g"], [{"k": "ret"}])]
     fblocks = [b["id"] for b in blocks if b["id"] not in (9, 5, 6)]
     funcs = [{"name": "g", "blocks": [9], "entries": [9]}]
@@ -218,6 +231,10 @@ def run_ctx(c):
     elif shape == "same-patch-object-in-a-calling-function-first":
         funcs.append({"name": "h", "blocks": [5, 6], "entries": [5]})
         funcs.append({"name": "f", "blocks": fblocks, "entries": [0]})
+    elif shape.startswith("block-shared-by-a-leaf-and-a-calling-function"):
+        hf = {"name": "h", "blocks": [5, 6, 0], "entries": [5]}
+        ff = {"name": "f", "blocks": [0], "entries": [0]}
+        funcs += [ff, hf] if shape.endswith("leaf-first") else [hf, ff]
     elif shape != "no-function":
         funcs.append({"name": "f", "blocks": fblocks, "entries": [0]})
     case = {"isa": "x64", "fmt": "elf", "pie": False, "externs": [],
@@ -278,6 +295,21 @@ def run_ctx(c):
         ctx.apply()
         pm = PassManager()
         pm.add(Reg("patch"))
+    elif shape.startswith("first-context-without-the-leaf"):
+        # an earlier context that was given no function at all (or only
+        # the others) leaves its bookkeeping behind; the leaf it never saw
+        # is still a leaf for the context that patches it
+        some = [] if shape.endswith("no-functions") else [
+            f for f in gtirb_functions.Function.build_functions(m)
+            if bu.blocks[0] not in f.get_all_blocks()]
+        ctx = RewritingContext(m, some)
+        ctx.get_or_insert_extern_symbol("puts", "libc.so.6")
+        if some:
+            ctx.insert_at(bu.blocks[9], 0, Patch.from_function(
+                lambda _ctx: "nop\n", Constraints()))
+        ctx.apply()
+        pm = PassManager()
+        pm.add(Reg("patch"))
     elif shape in ("leaf-gets-a-call-in-an-earlier-run",
                  "leaf-gets-a-call-then-a-context-without-it"):
         # first seen as a leaf: stays protected in later runs of the manager
@@ -313,7 +345,9 @@ def run_ctx(c):
                             "same-patch-object-in-a-calling-function-first",
                             "leaf-gets-a-call-in-an-earlier-run",
                             "leaf-gets-a-call-then-a-context-without-it",
-                            "no-function-behind-a-calling-function")
+                            "no-function-behind-a-calling-function") or \
+        shape.startswith("block-shared-by-a-leaf-and-a-calling-function") \
+        or shape.startswith("first-context-without-the-leaf")
     rng = random.Random(c["seed"])
     names = [canon("x64-elf", r) for r in ALLREGS["x64-elf"]] + ["rbp"]
     for res in (0, 8):
